@@ -112,6 +112,15 @@ func c06Gen(t *rapid.T) c06Case {
 		}
 		return c
 	}
+	if rapid.IntRange(0, 19).Draw(t, "skeleton3") == 0 {
+		// a high trigger rate: hundreds of records per channel and block, block after block, without a pause or stop in between
+		m := rapid.IntRange(1, 3).Draw(t, "typesH")
+		c.Ops = append(c.Ops, c06Op{Kind: "wc", Request: "START", LJH22: m&1 != 0, LJH3: m&2 != 0})
+		for k := rapid.IntRange(2, 4).Draw(t, "nbig"); k > 0; k-- {
+			c.Ops = append(c.Ops, c06Op{Kind: "publish", Nsamp: rapid.IntRange(400, 700).Draw(t, "bign")})
+		}
+		return c
+	}
 	if rapid.IntRange(0, 5).Draw(t, "skeleton2") == 0 {
 		// the operator deletes an earlier run of the day between two sessions: the directory numbers have a hole
 		start := func(label string) c06Op {
@@ -246,6 +255,7 @@ func c06Run1(c c06Case) (v vVerdict) {
 	blockLen := 3 * 16 // three records of the longest length in use
 	starts, pauses, startTypes := 0, 0, map[string]bool{}
 	removedRuns := 0
+	bigPublishes := 0
 	publishesBetween := false
 	pauseBeforeLastStart := false
 
@@ -384,6 +394,13 @@ func c06Run1(c c06Case) (v vVerdict) {
 			loadProj(op.Chan, op.Load)
 		case "publish":
 			st := c06Snapshot(ds)
+			blockLen := blockLen
+			if op.Nsamp >= 100 && op.Nsamp <= 800 {
+				// a long block: so many records per channel at once (the writers' queues hold 1000 entries and are emptied
+				// all the time by their own threads; the pause afterwards gives those threads time to do it)
+				blockLen = op.Nsamp * nsamp
+				bigPublishes++
+			}
 			block := &dataBlock{segments: make([]DataSegment, c.Nchan), nSamp: blockLen}
 			for ch := 0; ch < c.Nchan; ch++ {
 				raw := make([]RawType, blockLen)
@@ -414,6 +431,12 @@ func c06Run1(c c06Case) (v vVerdict) {
 				}
 				if len(recs) > 0 {
 					publishesBetween = true
+				}
+			}
+			if op.Nsamp >= 100 {
+				time.Sleep(40 * time.Millisecond)
+				if vStarved(2 * time.Second) {
+					return vVerdict{Inconclusive: "this process was not scheduled for most of a second while the writers were to empty their queues (overloaded machine)"}
 				}
 			}
 		case "wc":
@@ -550,6 +573,9 @@ func c06Run1(c c06Case) (v vVerdict) {
 	v.NonTrivial = starts >= 2 && len(startTypes) >= 2 && pauseBeforeLastStart && publishesBetween
 	if starts >= 2 {
 		v.Classes = append(v.Classes, "two-starts")
+	}
+	if bigPublishes > 0 {
+		v.Classes = append(v.Classes, "hundreds-of-records-per-block")
 	}
 	if removedRuns > 0 {
 		v.Classes = append(v.Classes, "earlier-run-directory-deleted")
